@@ -150,3 +150,12 @@ Example C19_nonvacuous :
   cancel_requests (FInstruments [0]) (insts s') = [] /\
   nthN (insts s') 1 = nthN (insts c19_state) 1.
 Proof. vm_compute. repeat split; reflexivity. Qed.
+
+(** Link between the proof side and the correspondence side (full): for every well-formed case,
+    if the model reproduces the observation ([corr_b]; for CancelOrders commands up to the order
+    of the requests, which the code takes from a hash map) then the oracle of Corr/C19.v accepts
+    it ([prop_b]) — the oracle is no stricter than the model. *)
+From BV Require Import Corr.C19 Proofs.OracleC19.
+Theorem C19_oracle_sound : forall c, valid_case c = true -> corr_b c = true -> prop_b c = true.
+Proof. exact oracle_sound_C19. Qed.
+Print Assumptions C19_oracle_sound.
